@@ -48,6 +48,26 @@ def features_of(node, table, labels, path=(), seen=()):
             features_of(b, table, labels, path + ("union",), seen)
 
 
+def float_where_int(got, want):
+    """First JSON value that the specification makes an integer but the text spells as a float, else None."""
+    if isinstance(want, bool) or want is None:
+        return None
+    if isinstance(want, int):
+        return got if isinstance(got, float) else None
+    if isinstance(want, dict) and isinstance(got, dict):
+        for key, v in want.items():
+            if key in got:
+                r = float_where_int(got[key], v)
+                if r is not None:
+                    return r
+    elif isinstance(want, list) and isinstance(got, list):
+        for a, b in zip(got, want):
+            r = float_where_int(a, b)
+            if r is not None:
+                return r
+    return None
+
+
 def nested_union(node, table, top=False, seen=()):
     """Does the type contain a union below its top level (inside an array, map or record)?"""
     k = node["k"]
@@ -150,7 +170,7 @@ class C15(Check):
         "Distinct by digest."
     )
     assumptions = ["write_union_type=False output is compared with the plain encoding only (it is documented as not re-readable)"]
-    required_labels = ["s:union", "s:map", "s:array", "s:ref", "s:enum", "s:fixed", "s:bytes", "top:non-record", "multi-record", "defaults-deleted", "plain-union", "nested-container-default", "top-level-null-document", "zero-records"]
+    required_labels = ["s:union", "s:map", "s:array", "s:ref", "s:enum", "s:fixed", "s:bytes", "top:non-record", "multi-record", "defaults-deleted", "plain-union", "nested-container-default", "top-level-null-document", "zero-records", "defaults-deleted:nested", "defaults-deleted:not-last"]
     quick = (3500, 1)
     thorough = (8000, 16)
 
@@ -176,7 +196,7 @@ class C15(Check):
             gen.check_truth(ir, table, js)
             dg = JsonData(d, feat, table)
             n = d.weighted([(1, 5), (2, 3), (3, 2), (0, 1)])
-            return {"schema": js, "records": [dg.gen(ir, 5) for _ in range(n)], "write_union_type": not d.p(0.15), "parsed": d.p(0.3)}
+            return {"schema": js, "records": [dg.gen(ir, 5) for _ in range(n)], "write_union_type": not d.p(0.15), "parsed": d.p(0.3), "absent_seed": d.rng(0, 63)}
 
         return cases()
 
@@ -271,16 +291,27 @@ class C15(Check):
         so = io.StringIO()
         guard("json-write", json_writer, so, schema, recs, write_union_type=wut)
         text = so.getvalue()
-        lines = text.split("\n") if text else []
+        # one JSON document per record, whatever white space separates them
+        lines = []
+        dec = json.JSONDecoder()
+        idx = 0
+        while True:
+            while idx < len(text) and text[idx] in " \t\r\n":
+                idx += 1
+            if idx >= len(text):
+                break
+            try:
+                _, end = dec.raw_decode(text, idx)
+            except ValueError:
+                raise Violation("json-not-json", f"output is not a sequence of JSON documents at offset {idx}: {text[idx:idx + 200]!r}; {ctx}")
+            lines.append(text[idx:end])
+            idx = end
         if not recs:
             labels.add("zero-records")
         if len(lines) != len(recs):
-            raise Violation("json-line-count", f"{len(lines)} lines for {len(recs)} records; text={text!r:.300}; {ctx}")
+            raise Violation("json-line-count", f"{len(lines)} documents for {len(recs)} records; text={text!r:.300}; {ctx}")
         for line, r, trace in zip(lines, recs, traces):
-            try:
-                got = json.loads(line)
-            except ValueError as e:
-                raise Violation("json-not-json", f"line is not JSON: {line!r:.200}; {ctx}")
+            got = json.loads(line)
             notes = set()
             want = J.encode(node, table, r, B.Picker(indices=trace), union_wrap=wut, notes=notes)
             if notes:
@@ -289,6 +320,9 @@ class C15(Check):
                 return labels
             if not B.same_by_value(got, want):
                 raise Violation("json-encoding-differs" + ("" if wut else ":plain"), f"json_writer wrote {line!r:.300}, specification gives {json.dumps(want)!r:.300}; {ctx}")
+            bad = float_where_int(got, want)
+            if bad is not None:
+                raise Violation("json-int-written-as-float", f"int/long value written as the JSON number {bad!r} (not an integer literal): {line!r:.300}; {ctx}")
         if not wut:
             labels.add("plain-union")
             return labels
@@ -316,6 +350,60 @@ class C15(Check):
                 back2 = guard("json-read-with-absent-defaulted-keys", lambda: list(json_reader(io.StringIO(text2), schema)))
                 if len(back2) != len(exp) or not all(B.same_by_value(g, e) for g, e in zip(back2, exp)):
                     raise Violation("json-defaults-mismatch", f"with defaulted keys deleted json_reader returned {back2!r:.300}, expected {exp!r:.300}; text={text2!r:.300}; {ctx}")
+        # the same at any depth and for a pseudo-random subset of the defaulted fields (drawn per case)
+        seedv = case.get("absent_seed", 1)
+        counter = [0]
+        deleted = [0, 0]  # nested deletions, records that kept a later key
+
+        def chooser():
+            counter[0] += 1
+            return ((seedv * 1103515245 + counter[0] * 12345) >> 4) % 3 != 0
+
+        def prune(n_, j, v, depth):
+            n_ = M.deref(n_, table)
+            k = n_["k"]
+            if k == "record" and isinstance(j, dict) and isinstance(v, dict):
+                j2, v2 = {}, {}
+                names = [f["name"] for f in n_["fields"]]
+                for i, f in enumerate(n_["fields"]):
+                    nm = f["name"]
+                    eligible = "default" in f and (case.get("include_nested_union_defaults") or not nested_union(f["type"], table, top=True))
+                    if eligible and nm in j and chooser():
+                        v2[nm] = self._default_norm(f, table)
+                        if depth > 0:
+                            deleted[0] += 1
+                        if i + 1 < len(names):
+                            deleted[1] += 1
+                        continue
+                    if nm in j:
+                        j2[nm], v2[nm] = prune(f["type"], j[nm], v.get(nm), depth + 1)
+                return j2, v2
+            if k == "array" and isinstance(j, list) and isinstance(v, list) and len(j) == len(v):
+                out = [prune(n_["items"], a, b, depth + 1) for a, b in zip(j, v)]
+                return [a for a, _ in out], [b for _, b in out]
+            if k == "map" and isinstance(j, dict) and isinstance(v, dict) and set(j) == set(v):
+                out = {key: prune(n_["values"], j[key], v[key], depth + 1) for key in j}
+                return {key: a for key, (a, _) in out.items()}, {key: b for key, (_, b) in out.items()}
+            if k == "union" and isinstance(j, dict) and len(j) == 1:
+                (key, val), = j.items()
+                for b in n_["branches"]:
+                    if M.branch_name(b, table) == key and M.deref(b, table)["k"] != "null":
+                        a, b2 = prune(b, val, v, depth + 1)
+                        return {key: a}, b2
+            return j, v
+
+        if lines:
+            pruned = [prune(node, json.loads(l), n, 0) for l, n in zip(lines, norms)]
+            if deleted[0]:
+                labels.add("defaults-deleted:nested")
+            if deleted[1]:
+                labels.add("defaults-deleted:not-last")
+            if deleted[0] or deleted[1]:
+                text3 = "\n".join(json.dumps(a) for a, _ in pruned)
+                exp3 = [b for _, b in pruned]
+                back3 = guard("json-read-with-absent-defaulted-keys", lambda: list(json_reader(io.StringIO(text3), schema)))
+                if len(back3) != len(exp3) or not all(B.same_by_value(g, e) for g, e in zip(back3, exp3)):
+                    raise Violation("json-defaults-mismatch:nested", f"with some defaulted keys deleted (any depth) json_reader returned {back3!r:.300}, expected {exp3!r:.300}; text={text3!r:.300}; {ctx}")
         return labels
 
     def _default_norm(self, f, table):
